@@ -70,6 +70,8 @@ def rules(ctx):
     c098(ctx)
     from . import C13
     C13.c131(ctx)    # the manifest reader drops an unfinished edit only at the end of its input
+    from . import C12
+    C12.c121(ctx)    # the log reader: a FIRST frame without its SECOND is an error, never a clean end
 
 
 def c091(ctx):
@@ -350,7 +352,20 @@ def c096(ctx):
     f = ctx.fn(R, "sst::log::LogIterator::true_up")
     if not f:
         return
-    sk = ctx.calls(R, f, r"std::io::Seek>::seek$|std::io::Seek::seek$|::seek_relative$|BufReader.*::seek_relative$|std::io::Read>::read_exact$|::consume$")
+    sk = ctx.calls(R, f, r"std::io::Seek>::seek$|std::io::Seek::seek$|::seek_relative$|BufReader.*::seek_relative$|std::io::Read>::read_exact$|std::io::Read>::read$|std::io::Read::read$|Read>?::read_to_end$|::consume$")
+    # what is skipped as padding is looked at: the writer pads with zeros, and the byte that says `this is padding` is covered by no
+    # checksum -- a frame whose length byte was zeroed must not be stepped over as if it were padding
+    blind = [pt for pt in sk if re.search(r"::seek$|::seek_relative$|::consume$", callee_skey(P.term_at(f, pt)) or "")]
+    reads = [pt for pt in sk if pt not in blind]
+    zero_tests = [1 for b in f.blocks for st in b.st if st["s"] == "=" and st["rv"].get("r") == "bin" and st["rv"]["op"] in ("Ne", "Eq")
+                  and any(o.get("k") == "const" and o["c"].get("v") == 0 and o["c"].get("ty") == "u8" for o in (st["rv"]["a"], st["rv"]["b"]))]
+    zero_tests += [1 for g_ in ctx.prog.closures_of(f) for b in g_.blocks for st in b.st if st["s"] == "=" and st["rv"].get("r") == "bin" and st["rv"]["op"] in ("Ne", "Eq")
+                   and any(o.get("k") == "const" and o["c"].get("v") == 0 and o["c"].get("ty") == "u8" for o in (st["rv"]["a"], st["rv"]["b"]))]
+    ctx.check(R, f, "padding-is-verified-zero", not blind and bool(reads) and bool(zero_tests),
+              "true_up reads the bytes it skips and compares them with zero",
+              "true_up steps over the bytes up to the block boundary without looking at them: a frame of at most 19 bytes that sits there and whose "
+              "length byte -- covered by no checksum -- was zeroed is skipped as padding, and its batch (a tombstone, say) silently disappears",
+              pt=(blind or sk or [None])[0])
     for pt in sk:
         g = [x for x in K.compare_guards(f, pt) if x["op"] in ("Gt", "Ge") and not x["holds"] and
              "#HEADER_MAX_SIZE" in (K.src_names(f, x["b"]) | K.src_names(f, x["a"]))]
@@ -375,7 +390,7 @@ def c096(ctx):
                       "%s repositions the log input" % P.short(g_.skey),
                       "%s repositions the log input itself instead of going through LogIterator::true_up (the bounded, boundary-aware skip): its own "
                       "arithmetic can jump a whole block when the position is already on a boundary" % g_.skey, pt=pt)
-    ctx.floor(R, "repositioning calls in LogIterator", n_seek, 1)
+    # (no floor: a reader that never seeks satisfies the clause)
     nh = ctx.fn(R, "sst::log::LogIterator::next_header")
     if nh:
         tu = ctx.calls(R, nh, r"sst::log::LogIterator::true_up$")
